@@ -65,7 +65,12 @@ func RestoreCreateContainerV2Request(contractCalls []event.NotaryEvent) (event.E
 	res.MainTransaction = *cnrCall.Raw().MainTransaction
 
 	if withOptionalEacl {
-		ev, err := RestorePutContainerEACLRequest(contractCalls[1])
+		eACLCall := contractCalls[1]
+		if eACLCall.ScriptHash() != cnrCall.ScriptHash() || !eACLCall.Type().Equal(event.NotaryTypeFromString(fschaincontracts.PutContainerEACLMethod)) {
+			return nil, fmt.Errorf("unexpected second contract call: %s of %s", eACLCall.Type(), eACLCall.ScriptHash().StringLE())
+		}
+
+		ev, err := RestorePutContainerEACLRequest(eACLCall)
 		if err != nil {
 			return nil, fmt.Errorf("additional eACL setting parsing: %w", err)
 		}
